@@ -219,10 +219,8 @@ Proof.
   - simpl. repeat constructor; simpl; intuition discriminate.
 Qed.
 
-Lemma ds_side (h : hostg) : side_okb h ds_p = true ->
-  (comp_bound (C06_Model.monos_on (host_c06 h) (pat_c06 (p_pat ds_p))) true (host_c06 h) (pat_c06 (p_pat ds_p)) <=? DEFAULT_THRESHOLD)%N = true ->
-  side_ok_c h ds_p.
-Proof. intros A B. split; [apply side_okb_ok; exact A | apply N.leb_le; exact B]. Qed.
+Lemma ds_side (h : hostg) : side_okb_c h ds_p = true -> side_ok_c h ds_p.
+Proof. apply side_okb_c_ok. Qed.
 
 Example glued_set_invariant_any_nonvacuous :
   gnodes ds_host2 <> gnodes ds_host /\
@@ -281,6 +279,6 @@ Proof.
   assert (E : p2 = prep_of false hx_tpl_r2) by (unfold prep_of; rewrite H1; reflexivity).
   exists p2. split; [exact H1|]. split; [exact H4|]. split; [vm_compute; reflexivity|].
   apply H5.
-  - split; [apply side_okb_ok; vm_compute; reflexivity | apply N.leb_le; vm_compute; reflexivity].
-  - subst p2. split; [apply side_okb_ok; vm_compute; reflexivity | apply N.leb_le; vm_compute; reflexivity].
+  - apply side_okb_c_ok. vm_compute. reflexivity.
+  - subst p2. apply side_okb_c_ok. vm_compute. reflexivity.
 Qed.
